@@ -128,4 +128,37 @@ theorem C01_convert_equiv_native (m : NLModel) (cfg : Cfg) (hacc : cfg.acc = .na
     have := (convert_roots_val m cfg x hv hwf).mp ((hcomp hx).mpr ⟨y, hdel⟩)
     exact ⟨hx, this.1, this.2⟩
 
+
+/-- **C01_convert_objective_native** — the objective clause for the reference converter: at every point satisfying the NL model the
+NL objective value (expression tree evaluated directly) is attained by a delivered solution over that point and no delivered
+solution over that point is better — the best delivered objective over the result variables equals the original objective value. -/
+theorem C01_convert_objective_native (m : NLModel) (cfg : Cfg) (hacc : cfg.acc = .native) (x : Asg) (hfr : InFragment m cfg)
+    (s : Sense) (e : NE) (hobj : m.obj = some (s, e)) (hsat : m.sat x) :
+    ∃ o, (convert m cfg).obj = some o ∧ o.sense = s ∧
+      (∃ y, DeliveredC (convert m cfg) x y ∧ o.val y = e.eval x) ∧
+      (∀ y, DeliveredC (convert m cfg) x y → noWorse s (e.eval x) (o.val y)) := by
+  obtain ⟨hv, hc⟩ := hfr
+  have hck := checks_sound m _ hc
+  obtain ⟨hperm, hchain, hok⟩ := native_hyps m cfg hacc hck
+  have hwf : WF m.n0 (convert m cfg).defs := hck.wf
+  have hvarsN : ∀ d ∈ (convert m cfg).defs, ∀ v ∈ d.f.vars, v < (convert m cfg).N := fun d hd v hv' =>
+    Nat.lt_trans (wf_vars_lt _ _ hck.wf d hd v hv') (hck.resN d hd)
+  obtain ⟨hx, hcons, hl⟩ := hsat
+  obtain ⟨o, ho, hs, hq, hval⟩ := convert_obj_val m cfg x s e hobj hv hwf
+  obtain ⟨hoN, _, hocov⟩ := hck.objOK o ho
+  have hnl := (convert_roots_val m cfg x hv hwf).mpr ⟨hcons, hl⟩
+  have h := C01_compose_objective (convert m cfg).B m.n0 (convert m cfg).N (convert m cfg).defs _ (convert m cfg).roots
+      (DomB (convert m cfg).N (convert m cfg).B) o
+      (fun z z' hag hz v hv' => by unfold inDom; rw [hag v hv']; exact hz v hv')
+      hperm hwf hck.resN hck.rootsN hck.cov hchain hok
+      (fun y hy d hd => funOK_of_typed _ _ d y (hck.typed d hd) (hvarsN d hd) hy)
+      hoN hocov (fun y _ t ht => by rw [hq] at ht; simp at ht)
+      x (exact_dom m.n0 _ _ m.B0 _ x hwf hck.defd hck.b0 hck.typed hx) hnl
+  refine ⟨o, ho, hs, ?_, ?_⟩
+  · obtain ⟨y, hd, hy⟩ := h.1
+    exact ⟨y, hd, by rw [hy, hval]⟩
+  · intro y hd
+    have := h.2 y hd
+    rw [hval, hs] at this; exact this
+
 end MpVerif.C01
